@@ -367,6 +367,31 @@ def correspond(ctx):
         if r != e:
             dis.append(Disagreement('c02.sorts', 'impl:sorts', f'utils._determine_sorts returned {e}, model {r}; {ln}',
                                     {'line': ln}, property_level=False))
+    # interp_pts is the one method whose data argument may be omitted: the baseline must still come back in the caller's x order
+    from pybaselines import Baseline, misc
+    for pk in ('random', 'rotate', 'reverse'):
+        for im in ('linear', 'quadratic'):
+            n = int(rng.choice([25, 40]))
+            x = np.sort(np.round(rng.uniform(0, 100, n) * 8) / 8 + np.arange(n) * 1e-3)
+            pts = np.array([[x[2], 3.0], [x[n // 2], 7.5], [x[-3], 5.0], [x[n // 4], 1.0]])
+            perm = perm_of(rng, n, pk)
+            xu = x[perm]
+            for label, fs, fu in (('method', lambda: Baseline(x).interp_pts(baseline_points=pts, interp_method=im),
+                                   lambda: Baseline(xu).interp_pts(baseline_points=pts, interp_method=im)),
+                                  ('function', lambda: misc.interp_pts(x_data=x, baseline_points=pts, interp_method=im),
+                                   lambda: misc.interp_pts(x_data=xu, baseline_points=pts, interp_method=im))):
+                try:
+                    bs, bu = fs()[0], fu()[0]
+                except Exception as ex:      # noqa: BLE001
+                    ctx.count('interp_pts-no-data:raised')
+                    continue
+                ctx.case(('interp_pts-no-data', pk, im, label, n), nontrivial=True)
+                ctx.count('interp_pts-no-data')
+                if np.shape(bu) != np.shape(bs) or not close(bu, bs[perm]):
+                    dis.append(Disagreement('c02.equivariance', f'1d:interp_pts:no-data:{label}', f'interp_pts ({label}, data omitted, {im}, perm={pk}): the baseline of the '
+                                            f'permuted call is not the permuted baseline of the sorted call (max diff '
+                                            f'{float(np.max(np.abs(bu - bs[perm]))) if np.shape(bu) == np.shape(bs) else "shape"})',
+                                            {'method': 'interp_pts', 'no_data': True, 'x': xu.tolist(), 'points': pts.tolist(), 'interp_method': im, 'iface': label}, True))
     for item in plan:
         try:
             dis += run_case(ctx, rng, *item)
